@@ -22,6 +22,10 @@ from .terms import Budget, term_vars         # noqa: E402
 assert os.path.realpath(engine.__file__).startswith(os.path.realpath(_src)), \
     'yldprolog imported from %s, expected %s' % (engine.__file__, _src)
 
+class ImplBudget(Budget):
+    pass
+
+
 # ---------------------------------------------------------------- variable registry
 REGISTRY = weakref.WeakSet()
 _orig_var_init = Variable.__init__
@@ -40,6 +44,24 @@ def bound_variables():
     return [v for v in list(REGISTRY) if get_value(v) is not v]
 
 
+# ---------------------------------------------------------------- work counter (harness side, like the registry)
+# The engine copies terms as trees; a program that doubles a term per recursion level makes it do exponential work
+# within very few calls.  Count Functor.get_value calls so that such a run ends in ImplBudget instead of a stall.
+WORK = {'n': 0, 'limit': None}
+_orig_functor_get_value = Functor.get_value
+
+
+def _functor_get_value(self):
+    WORK['n'] += 1
+    if WORK['limit'] is not None and WORK['n'] > WORK['limit']:
+        WORK['n'] = 0
+        raise ImplBudget('term-copying work budget')
+    return _orig_functor_get_value(self)
+
+
+Functor.get_value = _functor_get_value
+
+
 class Ctx:
     debug_filename = ''
     debug_parser = False
@@ -47,9 +69,6 @@ class Ctx:
     current_source_file = ''
     outf = None
 
-
-class ImplBudget(Budget):
-    pass
 
 
 class BudgetYP(YP):
@@ -59,6 +78,8 @@ class BudgetYP(YP):
     def __init__(self, budget=200000):
         self._n = 0
         self._budget = budget
+        WORK['n'] = 0
+        WORK['limit'] = 3000 * budget
         super().__init__()
 
     def query(self, name, args):
